@@ -53,14 +53,21 @@ CLAIMS["C01"] = dict(
 
 CLAIMS["C05"] = dict(
     category="other",
-    text=("As C01 for bound_constrained_trust_region_minimize (guarded success on the projected-gradient measure of the returned "
-          "point, descent sign proof, NaN polarity, parameters before solve), plus feasibility by construction: project is a "
-          "clamp on the bounds columns that solve() builds from equally scaled lower/upper bounds; project_onto_tr returns only "
-          "projections; every Cauchy step is project(.)-x; the SPG step changes only by alpha*(project_onto_tr(.)-(x+z)) with "
-          "alpha <= 1 through every line-search callee; the trial point is x + that step; the settings factory fills fields by name. alpha >= 0, brentq and optimality "
-          "for convex problems are NOT decided."),
-    design_ref="DESIGN.md section 4, C05",
-    technique="static analysis: guarded-return/dominator rules, sign proof, feasibility-provenance dataflow over reaching definitions, interprocedural bound on step length")
+    text=("Decided on the events (path conditions, assignments, calls with bound arguments, returns, must-log of calls) of a symbolic execution "
+          "of TrustRegionSPG (rules/C05_sym.py: exact polynomial terms over atoms, helpers / nested defs / lambdas inlined, if-merges as "
+          "decision trees, loops solved by induction with verified relational invariants): (D1) every success exit's path condition "
+          "contains a positively true `measure^k < c*tol^k` whose measure is the norm of clamp(P - gradient(P), bounds) - P at the returned "
+          "point P (a NaN cannot pass); (D2) every acceptance scenario bounds the ratio (objective(old) - objective(new))/model decrease "
+          "below by a threshold >= 0 with a denominator of known sign, and the reference objective value is fresh (a stale one fails its loop "
+          "invariant); (D3/T9) feasibility by box-point algebra: every point handed to the objective / returned is a convex combination "
+          "(weights in [0,1] summing to 1 by interval arithmetic under the path facts) of clamp(., lo, hi) atoms of the driver's box, per "
+          "function under its contract and once more fully inlined; bounds columns are the equally scaled lower/upper bounds; (D3/T2) every "
+          "accepted iterate is reported before the next iteration / exit; (D4) three-valued evaluation of the acceptance for a NaN / -inf "
+          "ratio: not accepted, radius shrunk; (T6) the two trust-region drivers agree on the acceptance truth table; parameters are installed "
+          "before the solve; the settings factory fills fields by name. Step lengths >= 0, the brentq result and optimality for convex "
+          "problems are NOT decided. REFUTED only for values the executor fully models; unmodelled library calls give UNDECIDED."),
+    design_ref="DESIGN.md section 4, C05 and section 11.8.1",
+    technique="static analysis: symbolic execution of the source into exact polynomial terms with loop invariants; box-point (convex combination) algebra; three-valued (NaN) evaluation of guards")
 
 CLAIMS["C04"] = dict(
     category="other",
